@@ -85,3 +85,48 @@ package proxy
 //@   ensures  @start: b.size > 0 ==> b.startProxyID == old(b.startProxyID) + int64(clamp(count, 0, old(b.size)))
 //@   ensures  @view: forall j int :: 0 <= j && j < b.size ==> b.at(j) == old(b.at(j + clamp(count, 0, old(b.size))))
 //@   assigns  b.head, b.size, b.startProxyID
+
+// ---------------------------------------------------------------------------------------------
+// C20: stream-open metadata cannot wedge or crash the replication-stream service.
+// ---------------------------------------------------------------------------------------------
+
+//@ pred (s *ReplicationStreamObserver) wf() = len(s.streamActive) <= 4294967296
+//@ pred inInt32(x int) = MinInt32 <= x && x <= MaxInt32
+
+//@ extern quiet (loggable).Warn
+//@ extern quiet (loggable).Info
+
+// Sequential (linearised) contract of the critical section: for ALL int32 idx and value there is no panic,
+// the lock is released on every exit, counters of other streams are untouched and idx is counted.
+//@ contract (*ReplicationStreamObserver).ReportStreamValue
+//@   props C20
+//@   requires s.wf()
+//@   ensures  @wf: s.wf()
+//@   ensures  @unlocked: !held(s.streamGrowLock)
+//@   ensures  @grow: len(s.streamActive) >= old(len(s.streamActive))
+//@   ensures  @others: forall j int :: 0 <= j && j < old(len(s.streamActive)) && j != int(idx) ==> s.streamActive[j] == old(s.streamActive[j])
+//@   ensures  @counted: idx >= 0 ==> int(idx) < len(s.streamActive)
+//@   ensures  @added: 0 <= idx && int(idx) < old(len(s.streamActive)) && inInt32(old(s.streamActive[idx]) + value) ==> s.streamActive[idx] == old(s.streamActive[idx]) + value
+//@   assigns  s.streamActive, elems(s.streamActive)
+
+//@ ghost adminServiceProxyServer.net int
+//@ extern $s.reportStreamValue(idx, value)
+//@   trusted wired to ReplicationStreamObserver.ReportStreamValue by NewAdminServiceProxyServer; ghost net = sum of reported values
+//@   ensures s.net == old(s.net) + value
+//@   assigns s.net
+
+//@ extern quiet metadata.FromIncomingContext
+//@ extern quiet history.DecodeClusterShardMD
+//@ extern quiet headers.NewGRPCHeaderGetter
+//@ extern quiet serviceerror.NewInvalidArgument
+//@ extern quiet log.CapturePanic
+//@ extern quiet ClusterShardIDtoString
+//@ extern quiet handleStream
+//@   trusted handleStream has no access to the observer counters (they are reachable only through s.reportStreamValue)
+
+// Bookkeeping is balanced on every exit path (+1 is followed by a deferred -1; early error returns happen
+// before any bookkeeping) and panic capture is installed first.
+//@ contract (*adminServiceProxyServer).StreamWorkflowReplicationMessages
+//@   props C20
+//@   firstdefer log.CapturePanic
+//@   ensures @balanced: s.net == old(s.net)
